@@ -42,7 +42,7 @@ def floors(tier):
             for nl in ("LF", "CRLF"):
                 f["classes"]["C03:%s:%s:%s" % (lay, enc, nl)] = 20
     for c in ("duplicate-names:error", "duplicate-names:rename", "drop-empty", "keep-empty", "exponent-number", "negzero", "empty-tier",
-              "quote", "newline-in-label", "fixture-file", "long-short-same-data"):
+              "quote", "newline-in-label", "fixture-file", "long-short-same-data", "no-final-line-break"):
         f["classes"]["C03:" + c] = 20
     return f
 
@@ -232,6 +232,11 @@ def workload(tier, rng, shard, nshards, work):
                 if dup and lay == "json":
                     continue
                 text, styles = render(spec, lay, rng, rng.choice(("mixed", "mixed", "plain", "exp")))
+                if lay in ("long", "short", "elan-long") and rng.random() < 0.15:
+                    text = text.rstrip("\n")  # the last line of a text file need not end in a line break
+                    extra_cls = ["C03:no-final-line-break"]
+                else:
+                    extra_cls = []
                 if nl == "CRLF":
                     text = text.replace("\n", "\r\n")
                 fn = os.path.join(str(work), "f%d.%s" % (i % 5, "json" if "json" in lay else "TextGrid"))
@@ -239,7 +244,7 @@ def workload(tier, rng, shard, nshards, work):
                     fd.write(PT.encode(text, enc))
                 keep = rng.random() < 0.5
                 dmode = rng.choice(("error", "rename"))
-                classes = base_classes + ["C03:%s:%s:%s" % (lay, enc, nl)]
+                classes = base_classes + ["C03:%s:%s:%s" % (lay, enc, nl)] + extra_cls
                 if any(s in ("exp", "EXP") for s in styles):
                     classes.append("C03:exponent-number")
                 if "negzero" in styles and "-0" in text:
